@@ -16,9 +16,7 @@ def specRun (f : Filt) (t : Tab) : Except String Tab :=
   if f.needs.all (fun c => t.cols.contains c) then
     let h := t.cols.contains "cn1"
     let rows := match f with
-      | .ampdel => ((splitRuns (fullLevel h levelAmpdel) t.rows).filter (fun g => match g with
-          | [] => false
-          | x :: _ => levelAmpdel x != some 0)).filterMap squashRegion
+      | .ampdel => specAmpdel h t.rows
       | g => specSquash h g.level t.rows
     .ok { cols := colsAfterSquash t.cols, rows := rows }
   else .error f.name
